@@ -458,8 +458,163 @@ fn builder_checks(ctx: &Ctx, rng: &mut Rng) {
     }
 }
 
+// ---- derived struct mappings -------------------------------------------------------------------------------
+
+#[derive(Debug, Clone, PartialEq, erltf_serde::ElixirStruct)]
+#[elixir_module = "Verif.Raw"]
+struct DRaw {
+    r#type: String,
+    r#ref: i64,
+    r#fn: Option<bool>,
+    plain: Vec<u16>,
+}
+
+#[derive(Debug, Clone, PartialEq, erltf_serde::ElixirStruct)]
+#[elixir_module = "Verif.One"]
+struct DOne {
+    only: u64,
+}
+
+#[derive(Debug, Clone, PartialEq, erltf_serde::ElixirStruct)]
+#[elixir_module = "Verif.Empty"]
+struct DEmpty {}
+
+#[derive(Debug, Clone, PartialEq, erltf_serde::ElixirStruct)]
+#[elixir_module = "Verif.Nested"]
+struct DNested {
+    inner: DRaw,
+    list: Vec<DOne>,
+    maybe: Option<DRaw>,
+    pair: (DOne, DEmpty),
+    by_name: BTreeMap<String, DOne>,
+    // field names that are words of the term format or of the generated code
+    nil: u8,
+    undefined: u8,
+    r#true: bool,
+    value: i32,
+    module: String,
+    __meta__: f64,
+}
+
+fn derived_rt<T: serde::Serialize + serde::de::DeserializeOwned + PartialEq + Debug>(ctx: &Ctx, name: &str, module: Option<&str>, fields: usize, x: &T) {
+    ctx.class(&format!("derived/{}", name));
+    ctx.eval(1);
+    let t = match guarded(|| erltf_serde::to_term(x)) {
+        Ok(Ok(t)) => t,
+        Ok(Err(e)) => {
+            ctx.viol(&format!("C20:derived:to_term-error:{}", name), "a derived struct mapping cannot be converted to a term", json!({"value": show(x), "error": e.to_string()}));
+            return;
+        }
+        Err(p) => {
+            ctx.viol(&format!("C20:panic:to_term:derived/{}", name), "panic", json!({"value": show(x), "panic": p}));
+            return;
+        }
+    };
+    // shape: a map with atom keys, one of them __struct__ => the module atom, one per field
+    match (module, val_of(&t)) {
+        (None, _) => {}
+        (Some(module), Val::Map(entries)) => {
+            let tag = entries.iter().find(|(k, _)| matches!(k, Val::Atom(a) if a == "__struct__")).map(|(_, v)| v.clone());
+            let want = Val::Atom(format!("Elixir.{}", module));
+            if !matches!(&tag, Some(v) if v.same(&want)) || entries.len() != fields + 1 || entries.iter().any(|(k, _)| !matches!(k, Val::Atom(_))) {
+                ctx.viol(&format!("C20:derived:term-shape:{}", name), "the term of a derived struct mapping is not %Module{field: ...}", json!({"term": val_of(&t).show()}));
+            }
+        }
+        (_, other) => ctx.viol(&format!("C20:derived:term-shape:{}", name), "the term of a derived struct mapping is not a map", json!({"term": other.show()})),
+    }
+    match guarded(|| erltf_serde::from_term::<T>(&t)) {
+        Ok(Ok(back)) => {
+            if &back != x {
+                ctx.viol(&format!("C20:memory:altered:derived/{}", name), "from_term(to_term(x)) returned another value", json!({"value": show(x), "back": show(&back)}));
+            }
+        }
+        Ok(Err(e)) => ctx.viol(&format!("C20:memory:rejected:derived/{}", name), "the mapping rejects its own term", json!({"value": show(x), "term": val_of(&t).show(), "error": e.to_string()})),
+        Err(p) => ctx.viol(&format!("C20:panic:from_term:derived/{}", name), "panic", json!({"value": show(x), "panic": p})),
+    }
+    ctx.eval(1);
+    match guarded(|| erltf_serde::to_bytes(x).and_then(|b| erltf_serde::from_bytes::<T>(&b))) {
+        Ok(Ok(back)) => {
+            if &back != x {
+                ctx.viol(&format!("C20:wire:altered:derived/{}", name), "from_bytes(to_bytes(x)) returned another value", json!({"value": show(x), "back": show(&back)}));
+            }
+        }
+        Ok(Err(e)) => ctx.viol(&format!("C20:wire:rejected:derived/{}", name), "the mapping rejects its own bytes", json!({"value": show(x), "error": e.to_string()})),
+        Err(p) => ctx.viol(&format!("C20:panic:from_bytes:derived/{}", name), "panic", json!({"value": show(x), "panic": p})),
+    }
+    // the same through the plain codec: encode the term, decode it, read the struct from that
+    ctx.eval(1);
+    if let Ok(Some(wire)) = guarded(|| erltf::encode(&t).ok().and_then(|b| erltf::decode(&b).ok())) {
+        match guarded(|| erltf_serde::from_term::<T>(&wire)) {
+            Ok(Ok(back)) if &back == x => {}
+            Ok(Ok(back)) => ctx.viol(&format!("C20:wire:altered:derived/{}", name), "the value changes across encode/decode of its term", json!({"value": show(x), "back": show(&back)})),
+            Ok(Err(e)) => ctx.viol(&format!("C20:wire:rejected:derived/{}", name), "the mapping rejects its own term after encode/decode", json!({"value": show(x), "error": e.to_string()})),
+            Err(p) => ctx.viol(&format!("C20:panic:from_term:derived/{}", name), "panic", json!({"value": show(x), "panic": p})),
+        }
+    }
+}
+
+/// A term of another struct, or one that lacks a field, is not this struct.
+fn derived_wrong_shape<T: serde::de::DeserializeOwned + Debug>(ctx: &Ctx, name: &str, kind: &str, t: &OwnedTerm) {
+    ctx.class(&format!("derived-mutation/{}/{}", name, kind));
+    ctx.eval(1);
+    match guarded(|| erltf_serde::from_term::<T>(t)) {
+        Ok(Ok(v)) => ctx.viol(&format!("C20:derived:accepts-{}:{}", kind, name), "a term of the wrong shape was accepted as the struct", json!({"input": val_of(t).show(), "made": show(&v)})),
+        Ok(Err(_)) => {}
+        Err(p) => ctx.viol(&format!("C20:panic:from_term:derived/{}", name), "panic on a mutated term", json!({"input": val_of(t).show(), "panic": p})),
+    }
+}
+
+fn derived_checks(ctx: &Ctx, rng: &mut Rng) {
+    let n = ctx.pick(200usize, 20_000usize);
+    for _ in 0..n {
+        if !ctx.time_left() {
+            break;
+        }
+        let raw = |rng: &mut Rng| DRaw { r#type: text(rng), r#ref: *rng.pick(I64S), r#fn: *rng.pick(&[None, Some(true), Some(false)]), plain: (0..rng.below(4)).map(|_| rng.next_u32() as u16).collect() };
+        let one = |rng: &mut Rng| DOne { only: *rng.pick(&[0u64, 1, 255, 256, u32::MAX as u64, 1 << 40, i64::MAX as u64, u64::MAX]) };
+        let r = raw(rng);
+        derived_rt(ctx, "raw-identifier-fields", Some("Verif.Raw"), 4, &r);
+        let o = one(rng);
+        derived_rt(ctx, "one-field", Some("Verif.One"), 1, &o);
+        derived_rt(ctx, "no-fields", Some("Verif.Empty"), 0, &DEmpty {});
+        let nested = DNested {
+            inner: raw(rng),
+            list: (0..rng.below(3)).map(|_| one(rng)).collect(),
+            maybe: if rng.bool() { Some(raw(rng)) } else { None },
+            pair: (one(rng), DEmpty {}),
+            by_name: (0..rng.below(3)).map(|_| (text(rng), one(rng))).collect(),
+            nil: rng.next_u32() as u8,
+            undefined: rng.next_u32() as u8,
+            r#true: rng.bool(),
+            value: rng.next_u32() as i32,
+            module: text(rng),
+            __meta__: (rng.next_u32() as f64) / 7.0,
+        };
+        derived_rt(ctx, "nested", Some("Verif.Nested"), 11, &nested);
+        derived_rt(ctx, "Vec<derived>", None, 0, &Wrapped(vec![raw(rng), raw(rng)]));
+        // wrong shapes
+        if let Ok(OwnedTerm::Map(m)) = erltf_serde::to_term(&r) {
+            derived_wrong_shape::<DOne>(ctx, "one-field", "other-struct", &OwnedTerm::Map(m.clone()));
+            let mut other = m.clone();
+            other.insert(OwnedTerm::atom("__struct__"), OwnedTerm::atom("Elixir.Verif.Other"));
+            derived_wrong_shape::<DRaw>(ctx, "raw-identifier-fields", "other-module", &OwnedTerm::Map(other));
+            let keys: Vec<OwnedTerm> = m.keys().filter(|k| !matches!(k, OwnedTerm::Atom(a) if a.as_str() == "__struct__")).cloned().collect();
+            let mut less = m.clone();
+            less.remove(rng.pick(&keys));
+            derived_wrong_shape::<DRaw>(ctx, "raw-identifier-fields", "missing-field", &OwnedTerm::Map(less));
+            let mut wrong = m.clone();
+            wrong.insert(rng.pick(&keys).clone(), OwnedTerm::Tuple(vec![]));
+            derived_wrong_shape::<DRaw>(ctx, "raw-identifier-fields", "wrong-type", &OwnedTerm::Map(wrong));
+        }
+    }
+}
+
+/// A sequence of derived structs (the shape check of `derived_rt` is for a single struct, so it gets its own path).
+#[derive(Debug, Clone, PartialEq, serde::Serialize, serde::Deserialize)]
+struct Wrapped(Vec<DRaw>);
+
 pub fn run(ctx: &Ctx) {
-    ctx.rule("cases = every Elixir wrapper (Range, MapSet, Date, Time, NaiveDateTime, DateTime, 12 exception structs) with field values from the extremes grid + random values, converted to a term and back in memory and across encode/decode; mutated terms (missing key, wrong type, out-of-range / negative / big integer, other struct) must be rejected or accepted without fabricating a field; Range len/contains/iteration/size_hint against an i128 reference over a bounds x steps grid incl. extremes (debug and release builds); proplist<->map helpers on well-formed proplists with distinct keys; keyword-list / atom-key-map builders; distinct = distinct (wrapper, value class) / (range class) / (mutation kind) labels");
+    ctx.rule("cases = every Elixir wrapper (Range, MapSet, Date, Time, NaiveDateTime, DateTime, 12 exception structs, derive(ElixirStruct) mappings incl. raw-identifier fields, no fields, nested mappings and fields named like words of the format) with field values from the extremes grid + random values, converted to a term and back in memory and across encode/decode; mutated terms (missing key, wrong type, out-of-range / negative / big integer, other struct) must be rejected or accepted without fabricating a field; Range len/contains/iteration/size_hint against an i128 reference over a bounds x steps grid incl. extremes (debug and release builds); proplist<->map helpers on well-formed proplists with distinct keys; keyword-list / atom-key-map builders; distinct = distinct (wrapper, value class) / (range class) / (mutation kind) labels");
     ctx.assume("ElixirRange::len saturates at usize::MAX for MIN..MAX//1 (2^64 elements) in the reference; members of sets/exceptions are compared by denoted value across the wire");
     let mut rng = Rng::derive(ctx.seed, 20, 1);
     range_checks(ctx, &mut rng);
@@ -542,4 +697,5 @@ pub fn run(ctx: &Ctx) {
     }
     proplist_checks(ctx, &mut rng);
     builder_checks(ctx, &mut rng);
+    derived_checks(ctx, &mut rng);
 }
